@@ -69,16 +69,55 @@ Section LiteralRet.
     apply bind_inv in H as (c & s3 & _ & H). injection H as <- _. reflexivity.
   Qed.
 
-  (* a function with a declared non-void result whose body is `x := <tuple / list of literals>`: rejected *)
-  Theorem literal_body_rejected name params rty dname dvar dkind dty k values csp dsp pure fsp f ctx s :
-    is_void_ty rty = false -> Forall is_lit values -> wf s ->
-    notok (r_expr (afix f) (EFunction name params rty [SDefinition dname dvar dkind dty (ECollection k values csp) dsp] pure fsp) ctx s).
+  (* ---- a blob literal whose field initialisers are literals *)
+  Lemma blob_fold_ret f sp ctx (given : fieldmap) : forall (fields : list (string * expr)) s r s',
+    Forall (fun fe => is_lit (snd fe)) fields ->
+    foldM (fun (acc : option tyid) (fe : string * expr) =>
+             '(iret, ety) <- r_expr (afix f) (snd fe) ctx ;;
+             acc' <- unify_option G sp acc iret ;;
+             match flookup (fst fe) given with
+             | Some (_, ft) => unify G (expr_span (snd fe)) ety ft ;;; ret acc'
+             | None => panic PFieldIndex
+             end) fields None s = Ok (r, s') -> r = None.
   Proof.
-    intros Nv Hl W [r s'] H. destruct f as [|f]; [discriminate|]. cbn [Tc.afix astep r_expr] in H. unfold expr_body in H.
+    induction fields as [|fe l IH]; intros s r s' Hl H; cbn [foldM] in H.
+    - injection H as <- _. reflexivity.
+    - inversion Hl as [|? ? Hv Hl']; subst.
+      apply bind_inv in H as (acc1 & s1 & H1 & H).
+      apply bind_inv in H1 as ([iret ety] & s2 & Hr & H1). pose proof (lit_ret_none _ _ _ _ _ _ Hv Hr) as E. cbn [fst] in E. subst iret.
+      cbn [unify_option] in H1. rewrite (bind_ok _ _ _ _ _ (eq_refl : ret (@None tyid) s2 = Ok (None, s2))) in H1.
+      destruct (flookup (fst fe) given) as [[gsp ft]|]; [|discriminate].
+      apply bind_inv in H1 as (u & s3 & _ & H1). injection H1 as <- <-. exact (IH _ _ _ Hl' H).
+  Qed.
+
+  Theorem blob_ret_none v fields self sp f ctx s r s' :
+    Forall (fun fe => is_lit (snd fe)) fields -> r_expr (afix f) (EBlob v fields self sp) ctx s = Ok (r, s') -> fst r = None.
+  Proof.
+    intros Hl H. destruct f as [|f]; [discriminate|]. cbn [Tc.afix astep r_expr] in H. unfold expr_body in H.
+    apply bind_inv in H as ([er ex] & s1 & H1 & H). cbv beta iota in H1.
+    assert (Er : er = None).
+    { apply bind_inv in H1 as (bt & s2 & _ & H1). apply bind_inv in H1 as (blob_ty & s3 & _ & H1).
+      apply bind_inv in H1 as (t & s4 & _ & H1). destruct t; try discriminate H1.
+      apply bind_inv in H1 as (given & s5 & _ & H1). cbv zeta in H1.
+      match type of H1 with (match ?l with _ => _ end) _ = _ => destruct l as [|e1 more] end; [|discriminate].
+      apply bind_inv in H1 as (gb & s6 & _ & H1). apply bind_inv in H1 as (sty & s7 & _ & H1).
+      apply bind_inv in H1 as (u8 & s8 & _ & H1). apply bind_inv in H1 as (ret0 & s9 & Hf & H1).
+      apply bind_inv in H1 as (u & s10 & _ & H1). injection H1 as <- _ _.
+      exact (blob_fold_ret f sp ctx given fields _ _ _ Hl Hf). }
+    subst er. apply bind_inv in H as (t & s2 & _ & H). destruct t; try (injection H as <- _; reflexivity).
+    apply bind_inv in H as (c & s3 & _ & H). injection H as <- _. reflexivity.
+  Qed.
+
+  (* a function with a declared non-void result whose body is `x := value`, for a value that never carries a return *)
+  Theorem noret_body_rejected name params rty dname dvar dkind dty value dsp pure fsp f ctx s :
+    is_void_ty rty = false ->
+    (forall f' ctx' s0 r0 s0', r_expr (afix f') value ctx' s0 = Ok (r0, s0') -> fst r0 = None) -> wf s ->
+    notok (r_expr (afix f) (EFunction name params rty [SDefinition dname dvar dkind dty value dsp] pure fsp) ctx s).
+  Proof.
+    intros Nv Hnr W [r s'] H. destruct f as [|f]; [discriminate|]. cbn [Tc.afix astep r_expr] in H. unfold expr_body in H.
     apply bind_inv in H as ([er ex] & s1 & H1 & _). cbv beta iota in H1.
     apply bind_inv in H1 as ([f_ty ret_ty] & s2 & _ & H1). cbv zeta in H1.
     apply bind_inv in H1 as ([actual implicit] & s3 & Hb & H1).
-    (* the block: one definition, no value *)
     unfold expression_block in Hb. cbn [block_split fst snd foldM] in Hb.
     apply bind_inv in Hb as (r1 & s4 & Hf & Hb). injection Hb as <- <- <-.
     apply bind_inv in Hf as (acc1 & s5 & Hs & Hf). injection Hf as <- <-.
@@ -86,19 +125,35 @@ Section LiteralRet.
     assert (Esr : sr = None).
     { destruct f as [|f]; [discriminate|]. cbn [Tc.afix astep r_stmt] in Hd. unfold stmt_body, definition in Hd.
       destruct (inside_pure (enter_fn pure ctx) && negb (immutable dkind)); [discriminate|].
-      apply bind_inv in Hd as (vt & s7 & _ & Hd). cbv beta iota in Hd.
+      apply bind_inv in Hd as (vt & s7 & _ & Hd).
       apply bind_inv in Hd as (u8 & s8 & _ & Hd).
       apply bind_inv in Hd as (dt & s9 & _ & Hd).
       apply bind_inv in Hd as (u10 & s10 & _ & Hd).
       apply bind_inv in Hd as (u11 & s11 & _ & Hd).
       apply bind_inv in Hd as ([vret vty] & s12 & Hv & Hd).
       apply bind_inv in Hd as (u13 & s13 & _ & Hd). injection Hd as <- _.
-      exact (collection_ret_none _ _ _ _ _ _ _ _ Hl Hv). }
+      exact (Hnr _ _ _ _ _ Hv). }
     subst sr. injection Hs as <- <-.
     rewrite Nv in H1. cbn [unify_option] in H1.
     rewrite (bind_ok _ _ _ _ _ (eq_refl : ret (@None tyid) s6 = Ok (None, s6))) in H1.
     rewrite (bind_ok _ _ _ _ _ (eq_refl : ret (Some ret_ty) s6 = Ok (Some ret_ty, s6))) in H1.
     rewrite (bind_ok _ _ _ _ _ (eq_refl : ret true s6 = Ok (true, s6))) in H1.
     cbn [andb negb] in H1. discriminate H1.
+  Qed.
+
+  Theorem literal_body_rejected name params rty dname dvar dkind dty k values csp dsp pure fsp f ctx s :
+    is_void_ty rty = false -> Forall is_lit values -> wf s ->
+    notok (r_expr (afix f) (EFunction name params rty [SDefinition dname dvar dkind dty (ECollection k values csp) dsp] pure fsp) ctx s).
+  Proof.
+    intros Nv Hl W. apply noret_body_rejected; [exact Nv| |exact W].
+    intros f' ctx' s0 r0 s0' H. exact (collection_ret_none _ _ _ _ _ _ _ _ Hl H).
+  Qed.
+
+  Theorem blob_literal_body_rejected name params rty dname dvar dkind dty v fields self bsp dsp pure fsp f ctx s :
+    is_void_ty rty = false -> Forall (fun fe => is_lit (snd fe)) fields -> wf s ->
+    notok (r_expr (afix f) (EFunction name params rty [SDefinition dname dvar dkind dty (EBlob v fields self bsp) dsp] pure fsp) ctx s).
+  Proof.
+    intros Nv Hl W. apply noret_body_rejected; [exact Nv| |exact W].
+    intros f' ctx' s0 r0 s0' H. exact (blob_ret_none _ _ _ _ _ _ _ _ _ Hl H).
   Qed.
 End LiteralRet.
